@@ -9,7 +9,7 @@ from .msgs import E, G, copy_gbal
 MAX_SAFE_INT = 9007199254740990
 AMOUNTS = [1, 2, 33, 34, 199, 200, 201, 399, 400, 1000, 3333, 9999, 10000, 10001, 12345, 10 ** 6, 10 ** 9 + 7]
 LIFETIMES = [600, 601, 3600, 86400, 1209599, 1209600]
-BAD_LIFETIMES = [0, 1, 599, 1209601, 2 ** 63, 2 ** 64 - 1]
+BAD_LIFETIMES = [0, 1, 599, 1209601, 2 ** 32 + 600, 2 ** 32 + 3600, 2 ** 33 + 86400, 2 ** 63, 2 ** 64 - 1]
 BPS = [10, 33, 100, 299, 300]
 BAD_BPS = [0, 9, 301, 5000, 2 ** 64 - 1]
 TRADERS = ["usr0", "usr1", "usr2", "usr3", "usr4"]
